@@ -97,21 +97,29 @@ func (c *clientService) Add(obj Actor) (uint32, error) {
 }
 
 func (c *clientService) Remove(objectID uint32) error {
-	c.objectsMutex.RLock()
+	// the table is written: the write lock (two removals at the same
+	// time, one per object goroutine, otherwise write the map
+	// together).
+	c.objectsMutex.Lock()
 	handlerID, ok := c.objectsHandlers[objectID]
 	if !ok {
-		c.objectsMutex.RUnlock()
+		c.objectsMutex.Unlock()
 		return fmt.Errorf("cannot remove unkown object ID: %d", objectID)
 	}
 	delete(c.objectsHandlers, objectID)
-	c.objectsMutex.RUnlock()
+	c.objectsMutex.Unlock()
 	return c.context.EndPoint().RemoveHandler(handlerID)
 }
 
 func (c *clientService) Terminate() error {
+	// Remove takes the lock itself: the identifiers are copied first.
 	c.objectsMutex.RLock()
-	defer c.objectsMutex.RUnlock()
+	ids := make([]uint32, 0, len(c.objectsHandlers))
 	for id := range c.objectsHandlers {
+		ids = append(ids, id)
+	}
+	c.objectsMutex.RUnlock()
+	for _, id := range ids {
 		err := c.Remove(id)
 		if err != nil {
 			return err
